@@ -2,7 +2,7 @@
    Only statements, each closed by [exact].  Model: Orm/Schema.v over Gen/ParseField.v (regenerated from
    wrapped_table.py / ormatic.py / wrapped_field.py on every run); Spec: Orm/SchemaSpec.v.
    [wfM] = the documented grammar; [topo M order] = the emission order lists every class once, parents first;
-   F = [F_selfcoll], [F_attrnames], [F_classnames] (complement of the defect classes, see _refuted). *)
+   F = [F_attrnames], [F_classnames] (complement of the defect classes, see _refuted). *)
 From Coq Require Import List String Ascii Bool ZArith Permutation.
 From Krrood Require Import Base.Sx Orm.SchemaStr Orm.SchemaSpec Gen.ParseField Orm.Schema Orm.SchemaProofs Orm.SchemaWf.
 Import ListNotations.
@@ -52,7 +52,8 @@ Theorem C06_no_generation_error : forall M order, wfM M = true -> (forall c, In 
 Proof. exact gen_no_error. Qed.
 
 (* static well-formedness *)
-Theorem C06_wf_assoc_columns : forall M order, wfM M = true -> F_selfcoll M = true -> (forall c, In c order -> In c M) ->
+(* two distinct association columns for every collection, also for a collection of the own class (c757abc) *)
+Theorem C06_wf_assoc_columns : forall M order, wfM M = true -> (forall c, In c order -> In c M) ->
   wf_assoc_columns (gen M order) = true.
 Proof. exact assoc_columns_distinct. Qed.
 
@@ -79,25 +80,26 @@ Theorem C06_tables_order_independent : forall M o1 o2, Permutation o1 o2 ->
   Permutation (s_tables (gen M o1)) (s_tables (gen M o2)).
 Proof. exact tables_order_independent. Qed.
 
-(* the defect classes: models of the grammar on which the generated layer is not well-formed *)
-Theorem C06_refuted_selfcoll : exists M order, wfM M = true /\ topo M order /\ wf_assoc_columns (gen M order) = false.
-Proof. exact refuted_selfcoll. Qed.
+(* the open defect class C06-g: class names equal up to case *)
+Theorem C06_refuted_casefold : exists M order, wfM M = true /\ topo M order /\ wf_table_names_unique (gen M order) = false.
+Proof. exact refuted_casefold. Qed.
+
+(* regression examples for the repaired findings.  C06-a (c757abc): a collection of the own class is well-formed *)
+Example C06_fixed_selfcoll : wfM M_selfcoll = true /\ inF M_selfcoll = true /\ wf_assoc_columns (gen M_selfcoll M_selfcoll) = true
+  /\ schema_wf (gen M_selfcoll M_selfcoll) = true /\ model_obs (gen M_selfcoll M_selfcoll) = spec_obs M_selfcoll.
+Proof. exact fixed_selfcoll. Qed.
+(* C06-c, d, e, f, h (bd9b8e0): models whose generated names clash are refused with an error, which is what the Spec
+   ([spec_obs_r] / [spec_refused]) asks for these shapes *)
+Example C06_refused_fkalias : refused_as_specified M_fkalias. Proof. exact refused_fkalias. Qed.
+Example C06_refused_reserved : refused_as_specified M_reserved. Proof. exact refused_reserved. Qed.
+Example C06_refused_pkname : refused_as_specified M_pkname. Proof. exact refused_pkname. Qed.
+Example C06_refused_discname : refused_as_specified M_discname. Proof. exact refused_discname. Qed.
+Example C06_refused_assocname : refused_as_specified M_assocname. Proof. exact refused_assocname. Qed.
+
 (* C06-b was repaired in /repo (b804898): the former counter-model is now well-formed and read back as the Spec says *)
 Example C06_fixed_nobuiltin : wfM M_nobuiltin = true /\ inF M_nobuiltin = true /\ wf_imports (gen M_nobuiltin M_nobuiltin) = true
   /\ schema_wf (gen M_nobuiltin M_nobuiltin) = true /\ model_obs (gen M_nobuiltin M_nobuiltin) = spec_obs M_nobuiltin.
 Proof. exact fixed_nobuiltin. Qed.
-Theorem C06_refuted_fkalias : exists M order, wfM M = true /\ topo M order /\ wf_attrs_unique (gen M order) = false.
-Proof. exact refuted_fkalias. Qed.
-Theorem C06_refuted_reserved : exists M order, wfM M = true /\ topo M order /\ wf_attrs_not_reserved (gen M order) = false.
-Proof. exact refuted_reserved. Qed.
-Theorem C06_refuted_pkname : exists M order, wfM M = true /\ topo M order /\ wf_attrs_unique (gen M order) = false.
-Proof. exact refuted_pkname. Qed.
-Theorem C06_refuted_discname : exists M order, wfM M = true /\ topo M order /\ wf_attrs_unique (gen M order) = false.
-Proof. exact refuted_discname. Qed.
-Theorem C06_refuted_casefold : exists M order, wfM M = true /\ topo M order /\ wf_table_names_unique (gen M order) = false.
-Proof. exact refuted_casefold. Qed.
-Theorem C06_refuted_assocname : exists M order, wfM M = true /\ topo M order /\ wf_table_names_unique (gen M order) = false.
-Proof. exact refuted_assocname. Qed.
 
 (* emission order (C06-i repaired by 280300b): whatever order the classes are handed over in, a topological order of
    ORMatic's inheritance graph (direct mapped base + first mapped class of the MRO) lists every class once and is
@@ -134,12 +136,6 @@ Print Assumptions C06_wf_imports.
 Print Assumptions C06_wf_fk_targets.
 Print Assumptions C06_generation_is_a_function.
 Print Assumptions C06_tables_order_independent.
-Print Assumptions C06_refuted_selfcoll.
-Print Assumptions C06_refuted_fkalias.
-Print Assumptions C06_refuted_reserved.
-Print Assumptions C06_refuted_pkname.
-Print Assumptions C06_refuted_discname.
 Print Assumptions C06_refuted_casefold.
-Print Assumptions C06_refuted_assocname.
 Print Assumptions C06_impl_order_is_topo.
 Print Assumptions C06_emission_parents_first.
